@@ -70,7 +70,7 @@ def run(chk, w):
                 chk.violation("C03-ADM", name, ns.CMR, s.loc(), "budget counter written with a value that is neither 0, counter+r nor counter-r")
     chk.floor("budget_counter_stores", nst, 4)
     # response_limit is never written
-    lim = [g for g in P.globals if g.split(".u")[0] == "response_limit"]
+    lim = _limit_globals(P)
     for f in P.repo_functions():
         for i in f.all_insts():
             if i.op == "store" and i["ptr"].get("k") == "global" and i["ptr"]["name"] in lim:
@@ -177,7 +177,7 @@ def run(chk, w):
                         if (c["pred"] in ("sle", "ule") and taken) or (c["pred"] in ("sgt", "ugt") and not taken):
                             budget_edge = True
         if not budget_edge:
-            lim_ = [g for g in P.globals if g.split(".u")[0] == "response_limit"]
+            lim_ = _limit_globals(P)
             budget_edge = rules.guarded_here_or_at_callers(P, f, i, lambda fn_, gd_, tr_: _budget_guard(P, fn_, gd_, tr_, lim_))
         sends = any(c2.callee in R.wire and (f.dominates(c2, i) or f.dominates(i, c2)) for c2 in f.calls())
         if budget_edge and sends:
@@ -240,6 +240,25 @@ def _branch_tag(f, s):
         if c is not None and c.op == "fcmp":
             return "expiry"
     return "other"
+
+
+def _limit_globals(P):
+    """the response limit by role: the object the budget counter plus an amount is compared with (a macro constant has no object)"""
+    out = set()
+    for f in P.repo_functions():
+        for c in f.all_insts():
+            if c.op != "icmp":
+                continue
+            l = f.resolve(rules.strip_casts(f, c["a"]))
+            if l is None or l.op != "add":
+                continue
+            la = f.resolve(rules.strip_casts(f, l["a"]))
+            if la is None or la.op != "load" or rules.field_path_of_ptr(P, f, la["ptr"]) != ns.CMR:
+                continue
+            rsrc = rules.load_source(f, c["b"])
+            if rsrc and rsrc[0] == "global":
+                out.add(rsrc[1])
+    return sorted(out)
 
 
 def _in_retry(P, cf, R):
